@@ -171,6 +171,13 @@ pub fn run(tier: Tier) -> i32 {
     };
     let g = gen(tier.is_thorough());
     let out = run_enum(&o, &g);
+    if tier.is_thorough() && crate::common::embedded_fd().is_none() {
+        // the same enumeration (quick alphabets) in the dev-like build: debug assertions live,
+        // debug_log! arguments evaluated
+        let (f, summary) = crate::common::run_embedded("devlike", "C19");
+        run.findings.merge(f);
+        run.cov("devlike_profile_run", summary);
+    }
     enum_evidence(&mut run, &out, "one case = a byte string used as code: (a) every 1- and 2-byte prefix x 4 fillers (thorough: every 3-byte prefix x 2 fillers), (b) legacy prefix menu x REX menu x every 1-byte and 0F-escaped opcode x every ModRM x SIB menu; each stepped in 2 layouts (code only; code+data+stack) x 2 register states (all registers pointing into mapped memory; distinct filler with all flags set), under catch_unwind, an allocation guard and a hang watchdog; states = distinct 8-byte code prefixes; distinct_nontrivial = distinct (first 8 bytes, outcome class and RIP of the 4 runs)");
     run.guard("cases", out.cases >= 1_000_000 || out.capped, format!("{} byte strings", out.cases));
     let okc = out.counters.get("ok").cloned().unwrap_or(0);
